@@ -135,6 +135,38 @@ class IG:
             return None
         return callee
 
+    def _emit_events(self, frame, bid, b, cur, register=True):
+        """append the event nodes of block `bid` after node `cur`; returns the last node"""
+        for ev in b["events"]:
+            n = self._node("ev", frame, ev, bid)
+            if register:
+                frame.ev_node[ev["id"]] = n
+            self._link(cur, n)
+            cur = n
+            if ev["e"] in ("call", "ctor", "dtor"):
+                callee = self._callee_of(frame, ev)
+                if callee is not None:
+                    n.inlined = True
+                    if ev["e"] == "dtor":
+                        this = {"k": "l", "id": ev.get("var"), "n": ev.get("name"), "fr": frame.id} \
+                            if "var" in ev else {"k": "obj", "ev": ev["id"], "fr": frame.id}
+                    elif ev["e"] == "ctor":
+                        this = {"k": "obj", "ev": ev["id"], "fr": frame.id}
+                    else:
+                        this = self.resolve(ev.get("this"), frame) if "this" in ev else None
+                    args = [self.resolve(a, frame) for a in ev.get("args", [])]
+                    fr2 = self._frame(callee, frame, n, this, args, frame.depth + 1)
+                    if register:
+                        frame.children[ev["id"]] = fr2
+                    en, ex = self._expand(fr2)
+                    self._link(n, en)
+                    after = self._node("after", frame, ev, bid)
+                    if register:
+                        frame.after_node[ev["id"]] = after
+                    self._link(ex, after)
+                    cur = after
+        return cur
+
     def _expand(self, frame):
         fn = frame.fn
         for bid in fn.blocks:
@@ -142,40 +174,16 @@ class IG:
         first_entry = {}
         if self.for_once:
             for bid, b in fn.blocks.items():
-                if b.get("term") == "ForStmt" and not b["events"] and len(b["succ"]) == 2:
+                if b.get("term") == "ForStmt" and len(b["succ"]) == 2 and not b.get("noreturn"):
                     tsucc = [s for s in b["succ"] if s.get("pol") is True]
                     if len(tsucc) == 1:
                         h = self._node("blk", frame, block=bid)
                         first_entry[bid] = h
-                        self._link(h, frame.block_node[tsucc[0]["to"]],
-                                   Label(b.get("cond"), True, None, frame, h))
+                        last = self._emit_events(frame, bid, b, h, register=False)
+                        self._link(last, frame.block_node[tsucc[0]["to"]],
+                                   Label(b.get("cond"), True, None, frame, last))
         for bid, b in fn.blocks.items():
-            cur = frame.block_node[bid]
-            for ev in b["events"]:
-                n = self._node("ev", frame, ev, bid)
-                frame.ev_node[ev["id"]] = n
-                self._link(cur, n)
-                cur = n
-                if ev["e"] in ("call", "ctor", "dtor"):
-                    callee = self._callee_of(frame, ev)
-                    if callee is not None:
-                        n.inlined = True
-                        if ev["e"] == "dtor":
-                            this = {"k": "l", "id": ev.get("var"), "n": ev.get("name"), "fr": frame.id} \
-                                if "var" in ev else {"k": "obj", "ev": ev["id"], "fr": frame.id}
-                        elif ev["e"] == "ctor":
-                            this = {"k": "obj", "ev": ev["id"], "fr": frame.id}
-                        else:
-                            this = self.resolve(ev.get("this"), frame) if "this" in ev else None
-                        args = [self.resolve(a, frame) for a in ev.get("args", [])]
-                        fr2 = self._frame(callee, frame, n, this, args, frame.depth + 1)
-                        frame.children[ev["id"]] = fr2
-                        en, ex = self._expand(fr2)
-                        self._link(n, en)
-                        after = self._node("after", frame, ev, bid)
-                        frame.after_node[ev["id"]] = after
-                        self._link(ex, after)
-                        cur = after
+            cur = self._emit_events(frame, bid, b, frame.block_node[bid])
             if b.get("noreturn"):
                 continue
             cond = b.get("cond")
